@@ -112,6 +112,23 @@ def work_special(args):
                     snd = ops.get("send@" + sd, [])
                     if snd and snd[-1][3] != "closed":
                         bad.append(("closed-send", "send on the closed connection at %s returned %r" % (sd, snd[-1][3])))
+        elif scenario.startswith("cancelled-exit"):
+            tc = se.closed_at.get("c")
+            if tc is None:
+                bad.append(("reference", "the scripted cancellation was never reached: %r" % (se.errors[:2],)))
+            else:
+                for name in ("recv@c", "recv_unreliable@c"):
+                    last = (ops.get(name) or [[None, None, None, None]])[-1]
+                    if last[3] != "eof" or last[2] is None or last[2] > tc + 1e-6:
+                        bad.append(("cancel-releases", "%s (a task outside the connection block) was %s at %s after the block was left by cancellation at %.4f: every pending recv must be released when the connection ends for any reason" % (name, last[3], last[2], tc)))
+                snd = ops.get("send@c", [])
+                if snd and snd[-1][3] != "closed":
+                    bad.append(("closed-send", "send on the connection whose block was left by cancellation returned %r instead of raising the closed-connection error" % (snd[-1][3],)))
+                h = (ops.get("handler") or [[None, None, None, None]])[0]
+                if h[2] is None or h[2] > tc + se.bound + MARGIN:
+                    bad.append(("late", "the server's handler returned at %s; the client fell silent at %.3f (bound %.3f)" % (h[2], tc, tc + se.bound)))
+            if se.errors:
+                bad.append(("cancel-error", "leaving the block by cancellation raised %r" % (se.errors[:2],)))
         elif scenario.startswith("unread-unreliable"):
             recv_side = "s" if scenario.endswith(":c") else "c"
             if b"after the burst" not in se.got.get((recv_side, 0), []):
@@ -177,7 +194,7 @@ def run(ctx):
                 "exactly (resend_limit+1)*resend_timeout, late sends raise closed, server table empties, the address reconnects; each run is "
                 "replayed through the Lean L1 model tick-exactly; plus a forceful local close() on either side while recv / recv_unreliable are pending in other tasks "
                 "(released at once locally, within one delay at the peer; later recv raises end-of-stream), and a keyed server refusing the login (wrong key, "
-                "expired, garbage ticket), an incompatible peer that answers SYN and CONNECT at packet level (ticket presented to a keyless port; no credentials at a keyed port), and a server handler that ends with an exception (end-of-stream escaping its receive loop, a rejected request) ; 150 unreliable datagrams nobody reads followed by ordinary traffic; a recv pending on every configured substream when fewer were negotiated; two clients on one port where one connection ends (gracefully, by silence, kicked) before the other's link dies — each followed by a new working connection from the same address; distinct non-trivial = distinct (configuration, k, mode)")
+                "expired, garbage ticket), an incompatible peer that answers SYN and CONNECT at packet level (ticket presented to a keyless port; no credentials at a keyed port), and a server handler that ends with an exception (end-of-stream escaping its receive loop, a rejected request), the client's connection block left by cancellation (a time-out scope) while tasks outside the block are blocked on the connection ; 150 unreliable datagrams nobody reads followed by ordinary traffic; a recv pending on every configured substream when fewer were negotiated; two clients on one port where one connection ends (gracefully, by silence, kicked) before the other's link dies — each followed by a new working connection from the same address; distinct non-trivial = distinct (configuration, k, mode)")
     base = dict(fragment_size=16, resend_timeout=0.5, ping_timeout=1.0)
     cfgs = []
     if quick:
@@ -221,7 +238,7 @@ def run(ctx):
             for sc in ("refused:wrong-key", "refused:expired", "refused:garbage"):
                 sjobs.append((n, dict(base, version=version, credentials=True, resend_limit=lim), 1, sc)); n += 1
             for sc in ("handler-raises:eof", "handler-raises:reject", "incompatible:creds-vs-keyless", "incompatible:keyless-vs-keyed",
-                       "unread-unreliable:c", "unread-unreliable:s") + (("extra-substreams:c", "extra-substreams:s") if version == 1 else ()):
+                       "unread-unreliable:c", "unread-unreliable:s", "cancelled-exit:0.4375", "cancelled-exit:1.3125") + (("extra-substreams:c", "extra-substreams:s") if version == 1 else ()):
                 sjobs.append((n, dict(base, version=version, credentials=False, resend_limit=lim), 1, sc)); n += 1
     # two clients on one server port: one connection ends (gracefully, by silence, kicked by the server), later the other one's link dies
     tjobs = []
